@@ -357,6 +357,17 @@ def _decide(pid: str, tier: str, seed: int, reg: Any, own: list, results: dict, 
                         confirmed = False
                 except Exception as e:  # pylint: disable=broad-except
                     v["replay_error"] = f"{type(e).__name__}: {e}"
+            elif "inputs" in cex and t.startswith("lemma:"):
+                try:
+                    from .runtime import replay_lemma
+
+                    lcon = next(c for c in reg.lemmas if c.target == t)
+                    rep = replay_lemma(lcon, {k: rebuild(x) for k, x in cex["inputs"].items()})
+                    v["replay_report"] = rep
+                    if rep.get("applicable", True) and rep["violations"]:
+                        confirmed = True
+                except Exception as e:  # pylint: disable=broad-except
+                    v["replay_error"] = f"{type(e).__name__}: {e}"
             v["confirmed"] = confirmed
             was_discharged = lk is not None and lk.get("obligations", {}).get(o["name"]) == "unsat"
             if confirmed:
